@@ -53,11 +53,11 @@ type vSub struct {
 	closech chan struct{}
 }
 
-func (s *vSub) Cache() kcache.CacheReader    { return s.c }
-func (s *vSub) Ready() <-chan struct{}       { return s.c.readych }
-func (s *vSub) Events() <-chan kcache.Event  { return s.evch }
-func (s *vSub) Done() <-chan struct{}        { return s.donech }
-func (s *vSub) Error() error                 { return nil }
+func (s *vSub) Cache() kcache.CacheReader   { return s.c }
+func (s *vSub) Ready() <-chan struct{}      { return s.c.readych }
+func (s *vSub) Events() <-chan kcache.Event { return s.evch }
+func (s *vSub) Done() <-chan struct{}       { return s.donech }
+func (s *vSub) Error() error                { return nil }
 func (s *vSub) Close() {
 	select {
 	case s.closech <- struct{}{}:
@@ -100,12 +100,12 @@ func (c *vCtl) List() ([]metav1.Object, error) {
 	<-c.lock
 	return l, nil
 }
-func (c *vCtl) Get(ns, name string) (metav1.Object, error)              { return nil, nil }
-func (c *vCtl) GetObject(o metav1.Object) (metav1.Object, error)        { return nil, nil }
-func (c *vCtl) Cache() kcache.CacheReader                               { return c }
-func (c *vCtl) Ready() <-chan struct{}                                  { return c.readych }
-func (c *vCtl) Done() <-chan struct{}                                   { return c.donech }
-func (c *vCtl) Error() error                                            { return nil }
+func (c *vCtl) Get(ns, name string) (metav1.Object, error)       { return nil, nil }
+func (c *vCtl) GetObject(o metav1.Object) (metav1.Object, error) { return nil, nil }
+func (c *vCtl) Cache() kcache.CacheReader                        { return c }
+func (c *vCtl) Ready() <-chan struct{}                           { return c.readych }
+func (c *vCtl) Done() <-chan struct{}                            { return c.donech }
+func (c *vCtl) Error() error                                     { return nil }
 func (c *vCtl) Close() {
 	c.closes <- struct{}{}
 	select {
@@ -156,10 +156,13 @@ func lastFilter(c *vCtl) (filter.Filter, int) {
 type vJoin struct {
 	src     *vCtl
 	dstbase *vCtl
-	mkSrc   func(i int) metav1.Object                      // i-th symbolic source object
-	want    func(objs []metav1.Object) filter.Filter       // the selection rule applied to a source content
-	run     func(src, dst *vCtl) (interface{ Close(); Done() <-chan struct{} }, error)
-	ref     func(objs []metav1.Object, p *corev1.Pod) bool // independent selection rule (optional)
+	mkSrc   func(i int) metav1.Object                // i-th symbolic source object
+	want    func(objs []metav1.Object) filter.Filter // the selection rule applied to a source content
+	run     func(src, dst *vCtl) (interface {
+		Close()
+		Done() <-chan struct{}
+	}, error)
+	ref func(objs []metav1.Object, p *corev1.Pod) bool // independent selection rule (optional)
 }
 
 func symSel(tag string) map[string]string {
@@ -287,7 +290,10 @@ func VerifC09_ServicePods() {
 			}
 			return service.PodsFilter(xs...)
 		},
-		run: func(src, dst *vCtl) (interface{ Close(); Done() <-chan struct{} }, error) {
+		run: func(src, dst *vCtl) (interface {
+			Close()
+			Done() <-chan struct{}
+		}, error) {
 			return ServicePods(context.Background(), service.VNewController(src), pod.VNewController(dst))
 		},
 		// the join selects the pods of a service's namespace that carry its (non-empty) selector
@@ -322,7 +328,10 @@ func VerifC09_RCPods() {
 			}
 			return replicationcontroller.PodsFilter(xs...)
 		},
-		run: func(src, dst *vCtl) (interface{ Close(); Done() <-chan struct{} }, error) {
+		run: func(src, dst *vCtl) (interface {
+			Close()
+			Done() <-chan struct{}
+		}, error) {
 			return RCPods(context.Background(), replicationcontroller.VNewController(src), pod.VNewController(dst))
 		},
 	}, "C09/rc-pods")
@@ -342,7 +351,10 @@ func VerifC09_RSPods() {
 			}
 			return replicaset.PodsFilter(xs...)
 		},
-		run: func(src, dst *vCtl) (interface{ Close(); Done() <-chan struct{} }, error) {
+		run: func(src, dst *vCtl) (interface {
+			Close()
+			Done() <-chan struct{}
+		}, error) {
 			return RSPods(context.Background(), replicaset.VNewController(src), pod.VNewController(dst))
 		},
 	}, "C09/rs-pods")
@@ -360,7 +372,10 @@ func VerifC09_DeploymentPods() {
 			}
 			return deployment.PodsFilter(xs...)
 		},
-		run: func(src, dst *vCtl) (interface{ Close(); Done() <-chan struct{} }, error) {
+		run: func(src, dst *vCtl) (interface {
+			Close()
+			Done() <-chan struct{}
+		}, error) {
 			return DeploymentPods(context.Background(), deployment.VNewController(src), pod.VNewController(dst))
 		},
 	}, "C09/deployment-pods")
@@ -378,7 +393,10 @@ func VerifC09_DaemonSetPods() {
 			}
 			return daemonset.PodsFilter(xs...)
 		},
-		run: func(src, dst *vCtl) (interface{ Close(); Done() <-chan struct{} }, error) {
+		run: func(src, dst *vCtl) (interface {
+			Close()
+			Done() <-chan struct{}
+		}, error) {
 			return DaemonSetPods(context.Background(), daemonset.VNewController(src), pod.VNewController(dst))
 		},
 	}, "C09/daemonset-pods")
@@ -396,7 +414,10 @@ func VerifC09_StatefulSetPods() {
 			}
 			return statefulset.PodsFilter(xs...)
 		},
-		run: func(src, dst *vCtl) (interface{ Close(); Done() <-chan struct{} }, error) {
+		run: func(src, dst *vCtl) (interface {
+			Close()
+			Done() <-chan struct{}
+		}, error) {
 			return StatefulSetPods(context.Background(), statefulset.VNewController(src), pod.VNewController(dst))
 		},
 	}, "C09/statefulset-pods")
@@ -414,7 +435,10 @@ func VerifC09_JobPods() {
 			}
 			return job.PodsFilter(xs...)
 		},
-		run: func(src, dst *vCtl) (interface{ Close(); Done() <-chan struct{} }, error) {
+		run: func(src, dst *vCtl) (interface {
+			Close()
+			Done() <-chan struct{}
+		}, error) {
 			return JobPods(context.Background(), job.VNewController(src), pod.VNewController(dst))
 		},
 	}, "C09/job-pods")
@@ -432,7 +456,10 @@ func VerifC09_IngressServices() {
 			}
 			return ingress.ServicesFilter(xs...)
 		},
-		run: func(src, dst *vCtl) (interface{ Close(); Done() <-chan struct{} }, error) {
+		run: func(src, dst *vCtl) (interface {
+			Close()
+			Done() <-chan struct{}
+		}, error) {
 			return IngressServices(context.Background(), ingress.VNewController(src), service.VNewController(dst))
 		},
 	}, "C09/ingress-services")
@@ -458,4 +485,117 @@ func VerifC09_IngressPods() {
 	zzverif.Assert(!vIsClosed(ing.donech) && !vIsClosed(svc.donech) && !vIsClosed(pods.donech), "C09/double-join/bases-left-running")
 	zzverif.Assert(zzverif.LiveLibGoroutines() == 0, "C09/double-join/goroutines-exit")
 	zzverif.Reach("C09/double-join")
+}
+
+// VerifC09_EndToEnd: the service->pods join over a REAL destination (publisher,
+// for-filter clone = real filterSubscription with its cache actor, typed
+// wrappers) and a fake source. Whatever the order of source readiness, source
+// changes, destination readiness and pod arrivals, once everything is quiet the
+// join is ready iff both sides are, and its cache holds exactly the pods
+// selected by the CURRENT source objects.
+func VerifC09_EndToEnd() {
+	tree := kcache.VNewTree(16, false)
+	src := newCtl()
+	res, err := ServicePods(context.Background(), service.VNewController(src), pod.VNewController(tree.Publisher()))
+	zzverif.Assert(err == nil, "harness/join")
+
+	var pods []*corev1.Pod
+	var content []metav1.Object
+	srcReady := false
+	var sub *vSub
+	mkPod := func() {
+		p := &corev1.Pod{ObjectMeta: metav1.ObjectMeta{Namespace: zzverif.NondetString("pod.ns"), Name: zzverif.NondetString("pod.name"), ResourceVersion: "1",
+			Labels: map[string]string{"app": []string{"x", "y"}[zzverif.NondetInt("pod.app", 0, 1)]}}}
+		for _, q := range pods {
+			zzverif.Assume(zzverif.Not(zzverif.And(q.Namespace == p.Namespace, q.Name == p.Name)))
+		}
+		pods = append(pods, p)
+		tree.Create(p)
+	}
+	mkSvc := func() metav1.Object {
+		m := metav1.ObjectMeta{Namespace: zzverif.NondetString("src.ns"), Name: zzverif.NondetString("src.name")}
+		zzverif.Assume(m.Namespace != "")
+		return &corev1.Service{ObjectMeta: m, Spec: corev1.ServiceSpec{Selector: map[string]string{"app": []string{"x", "y"}[zzverif.NondetInt("src.app", 0, 1)]}}}
+	}
+	n0 := zzverif.NondetInt("pods.n0", 0, 1)
+	for i := 0; i < n0; i++ {
+		mkPod()
+	}
+	if zzverif.NondetInt("src.n0", 0, 1) == 1 {
+		content = append(content, mkSvc())
+	}
+	src.set(content)
+
+	K := zzverif.Param("KE", 3)
+	for k := 0; k < K; k++ {
+		switch zzverif.NondetInt("action", 0, 3) {
+		case 0:
+			if srcReady {
+				zzverif.Assume(false)
+			}
+			srcReady = true
+			close(src.readych)
+		case 1:
+			if tree.IsReady() {
+				zzverif.Assume(false)
+			}
+			tree.MakeReady()
+		case 2:
+			mkPod()
+		default: // the source changes its selection: the only service is replaced / appears / disappears
+			var ev kcache.Event
+			if len(content) == 0 {
+				o := mkSvc()
+				content = []metav1.Object{o}
+				ev = kcache.NewEvent(kcache.EventTypeCreate, o)
+			} else if zzverif.NondetInt("src.change", 0, 1) == 0 {
+				o := mkSvc()
+				content = []metav1.Object{o}
+				ev = kcache.NewEvent(kcache.EventTypeUpdate, o)
+			} else {
+				o := content[0]
+				content = nil
+				ev = kcache.NewEvent(kcache.EventTypeDelete, o)
+			}
+			src.set(content)
+			if srcReady {
+				if sub == nil {
+					zzverif.Quiesce()
+					sub = <-src.subs
+				}
+				sub.evch <- ev
+			}
+			zzverif.Reach("C09/end-to-end/source-changed")
+		}
+	}
+	zzverif.Quiesce()
+	ready := vIsClosed(res.Ready())
+	zzverif.Assert(ready == (srcReady && tree.IsReady()), "C09/ready-after-both/end-to-end")
+	if !ready {
+		return
+	}
+	got, err := res.Cache().List()
+	zzverif.Assert(err == nil, "harness/list")
+	want := 0
+	for _, p := range pods {
+		sel := false
+		for _, o := range content {
+			svc := o.(*corev1.Service)
+			sel = zzverif.Or(sel, zzverif.And(svc.Namespace == p.Namespace, svc.Spec.Selector["app"] == p.Labels["app"]))
+		}
+		in := false
+		for _, g := range got {
+			if g == p {
+				in = true
+			}
+		}
+		if sel {
+			want++
+			zzverif.Assert(in, "C09/selects-matched/end-to-end/selected-present")
+		} else {
+			zzverif.Assert(!in, "C09/selects-matched/end-to-end/unselected-absent")
+		}
+	}
+	zzverif.Assert(len(got) == want, "C09/selects-matched/end-to-end/nothing-else")
+	zzverif.Reach("C09/end-to-end/ready")
 }
